@@ -308,9 +308,10 @@ def d2_stringifier(chk: Check) -> None:
 def d3_escapes(chk: Check) -> None:
     prog = chk.prog
     chk.rule("C08-D3a", "key context: the stringifier escapes a subset of "
-             "escape_path_section's alphabet (plus the separator) and the "
-             "reader's escape branch precedes every character-specific "
-             "branch", floor=3)
+             "escape_path_section's alphabet (plus the separator) that "
+             "contains every character the reader takes for syntax in its "
+             "base state, and the reader's escape branch precedes every "
+             "character-specific branch", floor=8)
     chk.rule("C08-D3b", "search-term context: the writer escapes spaces, "
              "which the reader would otherwise drop", floor=1)
     chk.rule("C08-D3c", "regular-expression context: the writer emits no "
@@ -321,8 +322,21 @@ def d3_escapes(chk: Check) -> None:
              and src(n.func).endswith("ensure_escaped")]
     if len(calls) != 1:
         raise AnalysisError("stringifier escaping call not found")
-    wsyms = {a.value for a in calls[0].args[1:]
-             if isinstance(a, ast.Constant)}
+    wsyms: Set[str] = set()
+    for a in calls[0].args[1:]:
+        if isinstance(a, ast.Constant) and isinstance(a.value, str):
+            wsyms.add(a.value)
+        elif isinstance(a, ast.Starred) and \
+                isinstance(a.value, ast.Constant) and \
+                isinstance(a.value.value, str):
+            wsyms |= set(a.value.value)
+        elif isinstance(a, ast.Starred) and \
+                isinstance(a.value, (ast.Tuple, ast.List)):
+            wsyms |= {e.value for e in a.value.elts
+                      if isinstance(e, ast.Constant)}
+        elif "pathsep" not in src(a):
+            raise AnalysisError("stringifier escape symbol `{}` is not a "
+                                "literal".format(src(a)))
     has_sep = any("pathsep" in src(a) for a in calls[0].args[1:])
     esyms, esep = escape_alphabet(prog)
     if wsyms <= esyms and has_sep and esep:
@@ -334,6 +348,25 @@ def d3_escapes(chk: Check) -> None:
                  "the stringifier escapes {} which escape_path_section does "
                  "not (or the separator is not escaped)".format(
                      sorted(wsyms - esyms)))
+    # ... and a superset of what the reader takes for syntax in its base
+    # state.  The backslash is exempt: the stringifier is fed the escaped
+    # view of the segments, in which a backslash already is an escape mark.
+    from rules.c02 import parser_base_specials
+    base = set(parser_base_specials(prog)) - {"\\", "<sep>"}
+    if len(base) < 5:
+        raise AnalysisError("parser base-state specials shrank: {}".format(
+            sorted(base)))
+    for c in sorted(base):
+        if c in wsyms:
+            chk.ok("C08-D3a", fi, calls[0], "writer escapes {!r}".format(c),
+                   "special for the reader's base state and escaped by the "
+                   "writer")
+        else:
+            chk.fail("C08-D3a", fi, calls[0],
+                     "writer escapes {!r}".format(c),
+                     "{!r} is syntax for the parser in its base state but "
+                     "the stringifier writes it bare inside a key: the "
+                     "canonical text re-parses to other segments".format(c))
     roles = parser_roles(prog)
     pfi = roles["fi"]
     chain: List[ast.If] = []
@@ -891,6 +924,143 @@ def d10_unquote(chk: Check) -> None:
                          v.value, want))
 
 
+
+def d11_stack_top(chk: Check) -> None:
+    """What a character means depends on the *innermost* open demarcation:
+    a stack is consulted at its top.  Reading any other position (the
+    outermost, `[0]`) agrees with the top only while the nesting is one
+    deep -- which is all the pinned literal paths ever exercise."""
+    from sa.stackstate import find_stacks
+    prog = chk.prog
+    chk.rule("C08-D11", "every element read of a parser's demarcation stack "
+             "reads its top (`[-1]`)", floor=8)
+    for name in ("YAMLPath._parse_path", "SearchKeywordTerms.parameters"):
+        fi = prog.func(name)
+        for stack, _ in find_stacks(fi):
+            for n in walk_local(fi.node):
+                if not (isinstance(n, ast.Subscript) and
+                        isinstance(n.value, ast.Name) and
+                        n.value.id == stack and
+                        isinstance(n.ctx, ast.Load)):
+                    continue
+                idx = src(n.slice)
+                text = "{}: read of the stack at [{}]".format(fi.short, idx)
+                if idx == "-1":
+                    chk.ok("C08-D11", fi, n, text, "the innermost open "
+                           "demarcation", False)
+                else:
+                    chk.fail("C08-D11", fi, n, text,
+                             "the parser decides on position [{}] of its "
+                             "demarcation stack, not on the innermost open "
+                             "demarcation: inside nested demarcation (a "
+                             "quote inside brackets, brackets inside a "
+                             "quote) the character is misread".format(idx))
+
+
+def d12_quoted_text_is_literal(chk: Check, rid: str = "C08-D12") -> None:
+    """Text between quotes is literal: that is the documented way to write
+    a key that contains `*` (or any other operator character).  The
+    post-lexing rewriting of a segment (`_expand_splats`: `*` -> match-all,
+    `a*b` -> regular-expression search) therefore applies to segments
+    accumulated *outside* quotes only; the quote-closing arm records the
+    pair (type, text) as it stands."""
+    prog = chk.prog
+    chk.rule(rid, "no rewriting of segment text (_expand_splats) in the arm "
+             "of the parser that closes a quoted segment; that arm records "
+             "the (type, text) pair verbatim", floor=3)
+    roles = parser_roles(prog)
+    fi = roles["fi"]
+    char = roles["char"]
+
+    def quote_arm(node: ast.AST) -> bool:
+        for f in facts_at(node):
+            if f.kind != "cond" or not f.pol:
+                continue
+            e = f.expr
+            if isinstance(e, ast.Compare) and len(e.ops) == 1 and \
+                    isinstance(e.ops[0], ast.In) and src(e.left) == char \
+                    and isinstance(e.comparators[0], (ast.List, ast.Tuple)):
+                vals = {x.value for x in e.comparators[0].elts
+                        if isinstance(x, ast.Constant)}
+                if vals and vals <= {"'", '"'}:
+                    return True
+        return False
+    n_calls = 0
+    for c in walk_local(fi.node):
+        if isinstance(c, ast.Call) and src(c.func).endswith("_expand_splats"):
+            n_calls += 1
+            text = "{}: `{}`".format(fi.short, src(c)[:50])
+            if quote_arm(c):
+                chk.fail(rid, fi, c, text,
+                         "the text of a quoted segment is handed to the "
+                         "wildcard rewriting: a quoted key containing `*` "
+                         "is no longer literal (`\"api*\"` also selects "
+                         "`apiary`)")
+            else:
+                chk.ok(rid, fi, c, text, "outside the quote-closing arm")
+    recorded = 0
+    for c in walk_local(fi.node):
+        if isinstance(c, ast.Call) and src(c.func).endswith(".append") and \
+                quote_arm(c) and c.args and \
+                src(c.func.value) != roles["stack"]:  # type: ignore
+            recorded += 1
+            a = c.args[0]
+            text = "{}: quote-closing arm records `{}`".format(
+                fi.short, src(a)[:40])
+            if isinstance(a, ast.Tuple) and len(a.elts) == 2 and all(
+                    isinstance(x, ast.Name) for x in a.elts):
+                chk.ok(rid, fi, c, text, "the pair as it stands")
+            else:
+                chk.fail(rid, fi, c, text,
+                         "the quote-closing arm records something other "
+                         "than the (type, text) pair it accumulated")
+    if n_calls < 2 or recorded < 1:
+        raise AnalysisError("parser: {} rewriting calls, {} quote-closing "
+                            "records".format(n_calls, recorded))
+
+
+def d13_separator_belongs_to_text(chk: Check) -> None:
+    """A path object's separator describes *its own* text.  It is either
+    forced by the caller (a parameter), unknown (AUTO), or inferred from the
+    object's own `_original`; the `separator` setter changes it only
+    together with a re-rendering of the text.  Taking the separator from
+    another object (a copy constructor that copies `.separator` while the
+    text stays in the old notation) makes the text parse on the wrong
+    character: the copy of a path has other segments than the path."""
+    prog = chk.prog
+    chk.rule("C08-D13", "every store to a path's separator is a parameter "
+             "of the storing function, AUTO, or the inference from the "
+             "object's own text", floor=4)
+    n = 0
+    for fi in prog.funcs_in("yamlpath/yamlpath.py"):
+        for a in walk_local(fi.node):
+            if not isinstance(a, (ast.Assign, ast.AnnAssign)):
+                continue
+            tgts = a.targets if isinstance(a, ast.Assign) else [a.target]
+            if not any(src(t) == "self._separator" for t in tgts) or \
+                    a.value is None:
+                continue
+            n += 1
+            v = a.value
+            ok = (isinstance(v, ast.Name) and v.id in fi.params()) or \
+                src(v) == "PathSeparators.AUTO" or (
+                    isinstance(v, ast.Call) and
+                    src(v.func) == "PathSeparators.infer_separator" and
+                    len(v.args) == 1 and src(v.args[0]) == "self._original")
+            text = "{}: self._separator = {}".format(fi.short, src(v)[:40])
+            if ok:
+                chk.ok("C08-D13", fi, a, text, "own parameter / AUTO / "
+                       "inferred from own text")
+            else:
+                chk.fail("C08-D13", fi, a, text,
+                         "the separator is taken from `{}`, not from this "
+                         "object's own text or the caller's choice: text "
+                         "and separator can disagree, and the path then "
+                         "splits on the wrong character".format(src(v)[:40]))
+    if n < 4:
+        raise AnalysisError("stores to the path separator not found")
+
+
 def run(chk: Check) -> None:
     d1_automaton(chk)
     d2_stringifier(chk)
@@ -902,3 +1072,6 @@ def run(chk: Check) -> None:
     d8_term_spaces(chk)
     d9_pop_forms(chk)
     d10_unquote(chk)
+    d11_stack_top(chk)
+    d12_quoted_text_is_literal(chk)
+    d13_separator_belongs_to_text(chk)
